@@ -62,8 +62,9 @@ def spec_check(d, t, r):
         return ("size_at:not-between", "size outside [start_size, end_size]")
     if not (lo <= v <= hi):
         # outside in the last places only: binary64 rounding of the interpolation formula when its weight rounds to 1
-        # (a time next to, but not isclose to, the epoch end).  Recorded finding F24; refuted for binary64 in
-        # coq/Proofs/SizeBetweenRefutedF.v, proved over exact reals and rationals.
+        # (a time next to, but not isclose to, the epoch end).  This was finding F24, repaired in /repo by clamping
+        # (7e3e094); since then between-ness is a theorem for every number instance, binary64 included
+        # (coq/Proofs/SizeBetweenAny.v), and a recurrence is a violation.
         return ("size_at:not-between:last-place", "size outside [start_size, end_size] in the last place (%r not in [%r, %r])" % (v, lo, hi))
     return None
 
